@@ -49,6 +49,19 @@ CLAIMED = {
              "the ladder itself is the specification.",
         technique="Coq proof (induction on the AST with a follow-set invariant, fuel monotonicity) + translator + correspondence",
         design="4 C19"),
+    "C07": dict(
+        text="Theorems over the transcription of Category::validate and Column::is_valid_value: total for every string (incl. a "
+             "proof that the GUID byte slice [1..37] is always on UTF-8 character boundaries), validate k s <-> a declarative "
+             "grammar for every category (identifier, property, GUID, version, language list, cabinet, 16/32-bit integer text, "
+             "upper/lower case; split/join inverses proved), is_valid_value <-> the documented meaning of valid, and validity "
+             "of the values built from any UUID / non-empty language list - all for all strings/values, by induction.  Category "
+             "tables, validator arms, numeric limits and the byte-vs-character measure are regenerated from category.rs.  "
+             "Correspondence: ~27k (category, string) and (column, value) pairs, bounded-exhaustive over adversarial alphabets; "
+             "oracle = independent regex grammar.  The insert/update gate itself is decided with the package model (C03/C04).",
+        note="Trusted: Coq kernel, translator, extraction, harness; str::parse and Uuid::parse_str modelled by contract "
+             "(read in the dependency source, validated by the correspondence).",
+        technique="Coq proof (induction on strings, reflection of boolean validators into declarative grammars) + correspondence",
+        design="4 C07"),
 }
 REASON_PENDING = "check not built yet in this round; see DESIGN.md section 4 for the plan"
 
